@@ -20,6 +20,7 @@
 import Tranp.Str
 import Tranp.Generated.EvalOps
 import Tranp.Generated.UnicodeDigits
+import Tranp.Generated.PyEscapes
 
 namespace Tranp.Evaluator
 open Tranp Tranp.Generated.EvalOps
@@ -152,10 +153,9 @@ def showNat (n : Nat) : Str := natDigits (n.log2 + 1) n []
 def showInt (i : Int) : Str := if i < 0 then '-' :: showNat i.natAbs else showNat i.natAbs
 
 /-- code points `int(str)` / `float(str)` strip: C `isspace` for ASCII (\t \n \v \f \r and space — NOT \x1c–\x1f, which only
-    `str.isspace` counts) and the Unicode White_Space characters beyond ASCII. -/
-def wsCodes : List Nat :=
-  [9, 10, 11, 12, 13, 32, 0x85, 0xa0, 0x1680, 0x2000, 0x2001, 0x2002, 0x2003, 0x2004, 0x2005, 0x2006, 0x2007, 0x2008, 0x2009, 0x200a,
-   0x2028, 0x2029, 0x202f, 0x205f, 0x3000]
+    `str.isspace` counts) and the Unicode White_Space characters beyond ASCII. The table is MEASURED on the pinned interpreter by the
+    translator on every run (`Generated/UnicodeDigits.intBlanks`: `int(chr(c) + '1' + chr(c)) == 1`, and `float` alike). -/
+def wsCodes : List Nat := Generated.UnicodeDigits.intBlanks
 
 def isWs (c : Char) : Bool := wsCodes.contains c.toNat
 
@@ -331,13 +331,9 @@ deriving DecidableEq, Repr
 
 def octVal (c : Char) : Option Nat := if 48 ≤ c.toNat ∧ c.toNat ≤ 55 then some (c.toNat - 48) else none
 
-/-- the one-character escapes of Python string literals -/
-def simpleEsc (c : Char) : Option Char :=
-  if c = 'n' then some '\n' else if c = 't' then some '\t' else if c = 'r' then some '\r'
-  else if c = 'a' then some (Char.ofNat 7) else if c = 'b' then some (Char.ofNat 8)
-  else if c = 'f' then some (Char.ofNat 12) else if c = 'v' then some (Char.ofNat 11)
-  else if c = '\\' then some '\\' else if c = '\'' then some '\'' else if c = '"' then some '"'
-  else none
+/-- the one-character escapes of Python string literals: the table is MEASURED on the pinned interpreter by the translator on every run
+    (`Generated/PyEscapes.simpleEscapes`: for every printable ASCII `c` the literal `'\c'` is evaluated). -/
+def simpleEsc (c : Char) : Option Char := (Generated.PyEscapes.simpleEscapes.lookup c).map Char.ofNat
 
 /-- a character in plain text -/
 def stepNormal (c : Char) : Str × DecState := if c = '\\' then ([], .backslash) else ([c], .normal)
